@@ -44,7 +44,7 @@ type obsSpec struct {
 
 type opSpec struct {
 	Dt    uint64     `json:"dt_ns"` // clock advance before the op
-	Kind  string     `json:"kind"`  // default | take | ctake | get | set | reset | exceeded | resetlimits
+	Kind  string     `json:"kind"`  // default | take | ctake | get | rtrip (get + set of the reported state) | set | reset | exceeded | resetlimits
 	Name  int        `json:"name,omitempty"`
 	Key   *keySpec   `json:"key,omitempty"`
 	Keys  []keySpec  `json:"keys,omitempty"`
@@ -161,8 +161,29 @@ func run(sc *scenario) (coq string, tags []string, err error) {
 	emit := func(at *big.Int, body string) {
 		evs = append(evs, fmt.Sprintf("Ev %s (%s)", at.String(), body))
 	}
+	negs := negTrackers{}
 	// the observed outcome of one TakeTokens, followed on the exact reference
 	observeTake := func(o *opSpec, at *big.Int, keys []keySpec, n int64, ok bool, exc int) {
+		defer func() {
+			negs.sync(ref, at, keys, false)
+			if ok {
+				for _, k := range keys {
+					if t := negs[k]; t != nil && t.admit(n) {
+						tagset[tagNegPeriod] = true
+					}
+				}
+			} else {
+				// refused by a later limit although this bucket, holding fewer than n, comes first
+				for _, k := range keys {
+					if k.Name == exc {
+						break
+					}
+					if t := negs[k]; t != nil && t.fresh >= 0 && n > t.fresh {
+						tagset[tagNegPeriod] = true
+					}
+				}
+			}
+		}()
 		nref, explained, early, xok, xexc := ref.follow(at, keys, n, ok, exc)
 		if early {
 			tagset["bridge:request-1ns-short-admitted-by-rounding"] = true
@@ -257,14 +278,20 @@ func run(sc *scenario) (coq string, tags []string, err error) {
 			_, applicable := reqKeys(sc.Limits, q)
 			for _, l := range applicable {
 				ref.set(at, l.keyOf(q), l.defaultState())
+				negs.sync(ref, at, []keySpec{l.keyOf(q)}, true)
 			}
 			emit(at, fmt.Sprintf("OResetLimits %s", q.coq()))
-		case "get":
+		case "get", "rtrip":
 			st, gerr := buckets.GetBucketState(o.Key.bucketKey())
 			found := gerr == nil
 			s := fromIrates(st)
 			o.Obs.Found, o.Obs.State = &found, &s
+			q, fractional, norm := ref.takenExact(at, *o.Key)
 			xfound, xs := ref.get(at, *o.Key)
+			negs.sync(ref, at, []keySpec{*o.Key}, false)
+			if t := negs[*o.Key]; t != nil && found && t.get(int64(s.Taken)) {
+				tagset[tagNegPeriod] = true
+			}
 			// +-1: float truncation of burst - tokens
 			if xfound != found || xs.Period != s.Period || xs.Max != s.Max || absDiff(xs.Taken, s.Taken) > 1 {
 				xdiff++
@@ -272,6 +299,15 @@ func run(sc *scenario) (coq string, tags []string, err error) {
 				tagset[diffTag(ref, []keySpec{*o.Key})] = true
 			}
 			emit(at, fmt.Sprintf("OGet %s %s %s", o.Key.coq(), kit.Bool(found), s.coq()))
+			if o.Kind == "rtrip" && found { // write the reported state back
+				if norm && fractional && int64(s.Taken) <= q {
+					tagset[tagRoundTrip] = true // the report dropped a fraction of a taken token
+				}
+				_ = buckets.SetBucketState(o.Key.bucketKey(), st)
+				ref.set(at, *o.Key, s)
+				negs.sync(ref, at, []keySpec{*o.Key}, true)
+				emit(at, fmt.Sprintf("OSet %s %s true", o.Key.coq(), s.coq()))
+			}
 		case "set":
 			serr := buckets.SetBucketState(o.Key.bucketKey(), o.State.irates())
 			found := serr == nil
@@ -280,10 +316,18 @@ func run(sc *scenario) (coq string, tags []string, err error) {
 				xdiff++
 				o.Obs.ExactDiff = "exact model: found differs"
 			}
+			negs.sync(ref, at, []keySpec{*o.Key}, true)
 			emit(at, fmt.Sprintf("OSet %s %s %s", o.Key.coq(), o.State.coq(), kit.Bool(found)))
 		case "reset":
 			buckets.ResetRateBuckets(qname(o.Name), o.State.irates())
 			ref.reset(at, o.Name, *o.State)
+			var named []keySpec
+			for k := range ref.buckets {
+				if k.Name == o.Name {
+					named = append(named, k)
+				}
+			}
+			negs.sync(ref, at, named, true)
 			emit(at, fmt.Sprintf("OReset %d %s", o.Name, o.State.coq()))
 		default:
 			return "", nil, fmt.Errorf("unknown op kind %q", o.Kind)
